@@ -28,7 +28,29 @@ def safe_name(s):
     return re.sub(r'[^A-Za-z0-9_.=-]+', '_', s)[:180]
 
 
-def finish(prop, tier, seed, units, results, wall, verbose=False, partial=False):
+def clause_key(rec):
+    """Path independent identity of an obligation: (unit, case without the bound, clause without '#k')."""
+    return '%s|%s|%s' % (rec['_task']['unit'], rec['_task']['case'].split('|')[0], re.sub(r'#\d+$', '', rec['clause']))
+
+
+def load_baseline(prop):
+    p = os.path.join(HERE, 'baseline', prop + '.json')
+    if not os.path.exists(p):
+        return set()
+    return set(json.load(open(p))['discharged_clause_keys'])
+
+
+def write_baseline(prop, all_recs):
+    bad = {clause_key(r) for r in all_recs if r['verdict'] != 'proved'}
+    keys = sorted({clause_key(r) for r in all_recs if r['verdict'] == 'proved'} - bad)
+    os.makedirs(os.path.join(HERE, 'baseline'), exist_ok=True)
+    json.dump({'property': prop, 'comment': 'clauses (unit|case|clause, path independent) whose every obligation is discharged on the unchanged tree; '
+               'an obligation of such a clause that later cannot be discharged is reported as a violation (no-failing-input-found) rather than as undecided',
+               'discharged_clause_keys': keys}, open(os.path.join(HERE, 'baseline', prop + '.json'), 'w'), indent=0)
+    print('baseline/%s.json: %d clause keys' % (prop, len(keys)))
+
+
+def finish(prop, tier, seed, units, results, wall, verbose=False, partial=False, baseline_out=False):
     from . import replay as RP
     known = load_known()
     findings = [f for f in known.get('findings', []) if f['property'] == prop]
@@ -80,6 +102,7 @@ def finish(prop, tier, seed, units, results, wall, verbose=False, partial=False)
                     violations.append(rec)
     os.makedirs(os.path.join(HERE, 'replays', prop), exist_ok=True)
     reported = set()
+    reported_ck = set()
     sound_refuted = {(r['_task']['unit'], r['clause']) for r in violations if not r.get('candidate')}
     for rec in violations:
         key = (rec['_task']['unit'], rec['_task']['case'].split('|')[0], rec['clause'])
@@ -102,6 +125,31 @@ def finish(prop, tier, seed, units, results, wall, verbose=False, partial=False)
         lines.append('VIOLATION property=%s replay=%s%s' % (prop, path, suffix))
         lines.append('  obligation %s refuted by %s; replay: %s' % (rec['name'], rec['backend'], rp.get('detail', rp['status'])))
         exit_code = 1
+    baseline = load_baseline(prop)
+    still_undecided = []
+    for rec in undecided:
+        ck = clause_key(rec)
+        if ck in baseline:
+            # this clause was discharged on the unchanged tree and now fails: reported as a violation with the solver's reason
+            if ck in reported_ck:
+                continue
+            reported_ck.add(ck)
+            rp = RP.replay_record(None, None, rec.get('replay_info'), rec.get('clause')) if rec.get('replay_info') else \
+                dict(status='not-replayable', detail='no counter-model (solver verdict: %s)' % (rec['reason'] or 'unknown'))
+            path = os.path.join('replays', prop, safe_name(rec['name']) + '.json')
+            json.dump({'property': prop, 'obligation': rec['name'], 'function': rec.get('function'), 'mode': rec['mode'], 'clause': rec['clause'],
+                       'kind': 'failed-obligation', 'solver_output': {'verdict': rec['verdict'], 'backend': rec['backend'], 'reason': rec['reason'], 'time_s': rec['time_s']},
+                       'note': 'discharged on the unchanged tree (baseline/%s.json), not dischargeable now' % prop, 'replay': rp, 'replay_info': rec.get('replay_info')},
+                      open(os.path.join(HERE, path), 'w'), indent=1, default=str)
+            suffix = '' if rp['status'] == 'confirmed' else ' no-failing-input-found'
+            lines.append('VIOLATION property=%s replay=%s%s' % (prop, path, suffix))
+            lines.append('  obligation %s was discharged on the unchanged tree and is not dischargeable now (%s); replay: %s'
+                         % (rec['name'], rec['reason'] or rec['verdict'], rp.get('detail', rp['status'])))
+            violations.append(rec)
+            exit_code = 1
+        else:
+            still_undecided.append(rec)
+    undecided = still_undecided
     for rec in undecided:
         lines.append('UNDECIDED property=%s obligation=%s reason=%s' % (prop, rec['name'], rec['reason'] or 'unknown'))
         if exit_code == 0:
@@ -121,6 +169,8 @@ def finish(prop, tier, seed, units, results, wall, verbose=False, partial=False)
             lines.append('CHECKER-ERROR property=%s unit=%s case=%s mode=%s explored no feasible path (vacuous precondition?)'
                          % (prop, r['unit'], r['case'], r['mode']))
             exit_code = 3
+    if baseline_out and not partial:
+        write_baseline(prop, all_recs)
     if not partial:
         write_evidence(prop, tier, seed, units, results, proof_recs, bounded_recs, violations, undecided, known_seen, wall, exit_code)
     for ln in lines:
